@@ -9,6 +9,7 @@ EXACT_INTERVALS = [
     {"days": 1, "hours": 12}, {"hours": 23, "minutes": 59, "seconds": 59},
     {"days": 400, "seconds": 1}, {"hours": 1, "minutes": -30},
     {"days": 1500}, {"days": 3000, "hours": 1}, {"weeks": 300},
+    {"days": 40000}, {"weeks": 5300}, {"hours": 900000},
 ]
 # exact intervals with binary fractions (exact in floats): the sub-second
 # part may come from any unit
@@ -28,8 +29,10 @@ REPS = (None, 1, 2, 3, 5, 9, 50)
 
 
 def rand_anchor(rng, mode, lo=100, hi=9000, rep=None):
-    kw = gen.rand_tp(rng, mode, rep=rep, form="hms",
-                     year=gen.rand_year(rng, lo, hi), bias=0.7)
+    y = gen.rand_year(rng, lo, hi)
+    if rng.random() < 0.06:
+        y = rng.choice((-2, -1, 0, 1, 2, -400, -5))   # around year 0
+    kw = gen.rand_tp(rng, mode, rep=rep, form="hms", year=y, bias=0.7)
     return kw
 
 
